@@ -1,5 +1,5 @@
 """Texts of MANIFEST.json, per property."""
-HOOK_COMMITS = []
+HOOK_COMMITS = ["cb2d936", "4e2c805"]
 NOTES = ("Every check: regenerate Gen/*.lean from /repo, lake build the property's theorems, audit axioms, rebuild the Go harness from "
          "/repo's working tree, run corpus + generated cases, diff Go vs Lean model vs Lean specification. "
          "Known findings: known_findings.json. Design: DESIGN.md.")
@@ -14,5 +14,6 @@ def _t(design, extra=""):
 TEXT = {
     "C01": _t("8/C01"), "C02": _t("8/C02"), "C03": _t("8/C03"), "C04": _t("8/C04", "The special-value class product is enumerated exhaustively each run."),
     "C05": _t("8/C05"), "C14": _t("8/C14"), "C19": _t("8/C19"), "C20": _t("8/C20"),
+    "C06": _t("8/C06"), "C07": _t("8/C07"), "C18": _t("8/C18"),
     "C08": _t("8/C08"), "C09": _t("8/C09"), "C10": _t("8/C10"), "C16": _t("8/C16"),
 }
